@@ -63,7 +63,9 @@ fn row(kind: Kind, action: &str, date_field: &str, date: NaiveDate, symbol: &str
         symbol: symbol.to_string(),
         qty: clean(qty),
         price: clean(price),
-        fees: clean(fees).unwrap_or(Decimal::ZERO),
+        // the sign of a Schwab cell is the direction of the cash flow (the converter itself takes dividend and
+        // withholding amounts by magnitude): fees of "-$0.03" are fees of 0.03
+        fees: clean(fees).unwrap_or(Decimal::ZERO).abs(),
         amount: clean(amount),
     }
 }
@@ -91,6 +93,8 @@ fn row_alphabet() -> Vec<Row> {
         // the same sale but for its fees: a Cancel Sell row quoting fees of $0.10 is not "identical" to this one
         row(Kind::Sell, "Sell", &us(a), a, "X", "SELL X", "4", "$110", "$0.20", "$439.80"),
         row(Kind::Sell, "Sell", &us(c), c, "X", "SELL X", "2.5", "$120.25", "", ""),
+        // fees spelled as an outflow (one of the amount spellings): they must not vanish from the SELL line
+        row(Kind::Sell, "Sell", &us(c), c, "X", "SELL X", "1.5", "$121", "-$0.03", "$181.47"),
         row(Kind::CancelSell, "Cancel Sell", &us(a), a, "X", "CXL", "4", "$110", "$0.10", "-$439.90"),
         row(Kind::CancelSell, "Cancel Sell", &us(b), b, "X", "CXL", "4", "$110", "", ""),
         row(Kind::Rsu, "Stock Plan Activity", &us(b), b, "X", "RSU", "10", "", "", ""),
